@@ -73,6 +73,10 @@ fn main() {
                 run = Run::new("C01", &tier, "model_checking");
                 engines::c01::run(&mut run);
             }
+            "C06" => {
+                run = Run::new("C06", &tier, "exploration");
+                engines::c06::run(&mut run);
+            }
             "C03" => {
                 run = Run::new("C03", &tier, "fault_enumeration");
                 engines::faults::run_c03(&mut run);
@@ -96,6 +100,10 @@ fn main() {
             "C07" => {
                 run = Run::new("C07", &tier, "fault_enumeration");
                 engines::c07::run(&mut run);
+            }
+            "C10" => {
+                run = Run::new("C10", &tier, "model_checking");
+                engines::c10::run(&mut run);
             }
             "C13" => {
                 run = Run::new("C13", &tier, "model_checking");
@@ -127,6 +135,7 @@ fn replay(dir: &str) -> i32 {
         "c17" => engines::c17::replay(case),
         "c13" => engines::c13::replay(case),
         "faults" => engines::faults::replay(case),
+        "c06" => engines::c06::replay(case),
         "c01" => engines::c01::replay(case),
         "c07" => engines::c07::replay(case),
         "c16" | "c16-disk" => engines::c16::replay(case),
